@@ -197,3 +197,95 @@ def from_records_order(crate):
 
     _check_paths(ex, res, outs, per_path)
     return P.finish(ex, res, ["index written, marked and synced", "body append failed: flag never set", "sync failed"])
+
+
+def go_right_continues(crate, R=3):
+    """C09: BPTreeFileIndex::go_right (all versions of a key to the right of the hit, continuing in the file when the 4 KiB
+    buffer ends): the records decoded from the buffer are the consecutive ones after the hit, and the continuation in the
+    file starts at the ABSOLUTE file offset of the first record the buffer scan did not decode (leaf offset + position in
+    the buffer), so no version is skipped or read twice."""
+    from .ob_blob import _check_paths, _ev_result_ok, idx
+    from .ob_record import mk_buf, _buf, BYTES_SUMMARIES
+    res = P.ObResult("go_right_continues[<=%d records in buffer]" % R)
+    fn = crate.method("BPTreeFileIndex", "go_right")
+    res.functions = ["BPTreeFileIndex::go_right (async body)"]
+    RHS = 60
+    res.bounds = "record header size %d (concrete), buffer <= %d records, arbitrary leaf / leaves offsets and records count (< 2^32)" % (RHS, R + 1)
+
+    def h_u8_index(ex_, st_, frame, t, nf, args, dty):
+        b = S.deref_val(ex_, st_, args[0])
+        if not (isinstance(b, Obj) and ("g", "len") in b.fields):
+            raise Unsupported("index into an unmodelled byte slice")
+        rng = args[1]
+        start, end = ex_._get_field(st_, rng, None, 0, "usize").t, ex_._get_field(st_, rng, None, 1, "usize").t
+        ln, off = b.fields[("g", "len")].t, b.fields[("g", "off")].t
+        sub = mk_buf(end - start, off + start)
+        inb = z3.And(z3.ULE(start, end), z3.ULE(end, ln))
+        return [(Ref(st_.new_cell(sub), (), False, "&[u8]"), inb), (("panic", "byte slice index out of range"), z3.Not(inb))]
+
+    def h_deser(ex_, st_, frame, t, nf, args, dty):
+        b = S.deref_val(ex_, st_, args[0])
+        r = ex_.fresh(dty, st_, "hdr")
+        st_.events.append(("decode", "bincode::deserialize", [b.fields[("g", "off")].t, b.fields[("g", "len")].t], r))
+        return [(r, None)]
+
+    def h_slice_len(ex_, st_, frame, t, nf, args, dty):
+        b = S.deref_val(ex_, st_, args[0])
+        if isinstance(b, Obj) and ("g", "len") in b.fields:
+            return [(b.fields[("g", "len")], None)]
+        return S.h_vec_len(ex_, st_, frame, t, nf, args, dty)
+    extra = [(r"^<\[u8\] as (std::ops::)?Index<(std::ops::)?Range<usize>>>::index$", h_u8_index), (r"^bincode::deserialize$", h_deser),
+             (r"^core::slice::(<impl[^>]*>::)?len$", h_slice_len)] + BYTES_SUMMARIES
+    ex = P.mk_executor(crate, cap=R + 3, loop_bound=R + 3, inline=[], extra_summaries=extra, havoc=[r"^<\[u8\] as PartialEq>::eq$"])
+    st = State()
+    me = Obj("bptree::core::BPTreeFileIndex<K>")
+    hdr = Obj("blob::index::header::IndexHeader")
+    rc = z3.BitVec("records_count", 64)
+    hdr.fields[(None, crate.field_index("IndexHeader", "record_header_size"))] = Sym(BV64(RHS), "usize")
+    hdr.fields[(None, crate.field_index("IndexHeader", "records_count"))] = Sym(rc, "usize")
+    me.fields[(None, crate.field_index("BPTreeFileIndex", "header"))] = hdr
+    meta = Obj("bptree::meta::TreeMeta")
+    leaves = z3.BitVec("leaves_offset", 64)
+    meta.fields[(None, crate.field_index("TreeMeta", "leaves_offset"))] = Sym(leaves, "u64")
+    me.fields[(None, crate.field_index("BPTreeFileIndex", "metadata"))] = meta
+    mc = st.new_cell(me)
+    leaf = z3.BitVec("leaf_offset", 64)
+    blen = z3.BitVec("buf_len", 64)
+    hit = z3.BitVec("hit_offset_in_buf", 64)
+    st.pc.append(z3.And(z3.ULT(rc, BV64(1 << 20)), z3.ULT(leaves, BV64(1 << 32)), z3.UGE(leaf, leaves), z3.ULT(leaf, BV64(1 << 33)),
+                        z3.ULE(blen, BV64(RHS * (R + 1))), z3.ULT(hit, BV64(1 << 20)), z3.URem(hit, BV64(RHS)) == BV64(0), z3.ULE(hit + BV64(RHS), blen),
+                        # the leaf lies inside the leaf region and the buffer does not extend past the file's records more than a block
+                        z3.ULE(leaf - leaves, BV64(RHS) * rc)))
+    buf = mk_buf(blen, leaf)
+    bc = st.new_cell(buf)
+    headers = VecV(P.HEADER_TY, R + 3, Sym(BV64(1), "usize"), [P.mk_header(crate, "hit")] + [None] * (R + 2))
+    hc = st.new_cell(headers)
+    outs = P.drive_async(ex, st, fn, [Ref(mc, (), False, "&BPTreeFileIndex<K>"), Ref(hc, (), True, "&mut Vec<Header>"), Ref(bc, (), False, "&[u8]"),
+                                      Sym(hit, "usize"), Sym(leaf, "u64")])
+    res.paths = len(outs)
+
+    def per_path(o, isok, payload):
+        dec = [e for e in o.events if e[0] == "decode"]
+        cont = [e for e in P.events_of(o) if "go_right_file" in e[1]]
+        cs = []
+        pos = hit + BV64(RHS)
+        for e in dec:
+            off, ln = e[2]
+            cs.append(z3.And(off == leaf + pos, ln == BV64(RHS)))
+            pos = pos + BV64(RHS)
+        if cs and not P.prove(ex, res, o, z3.And(cs), "buffer records are decoded consecutively after the hit"):
+            return False
+        if cont:
+            arg = cont[0][2][2] if len(cont[0][2]) > 2 else None
+            if not isinstance(arg, Sym):
+                res.status = "inconclusive"; res.detail = "continuation offset not found"; return False
+            if not P.prove(ex, res, o, arg.t == leaf + pos, "file continuation starts at leaf_offset + first undecoded position"):
+                return False
+            P.cover(ex, res, o, z3.And(leaf != leaves, z3.BoolVal(len(dec) >= 1)), "continuation from a leaf that is not the first one, after in-buffer records")
+            P.cover(ex, res, o, leaf != leaves, "continuation from a later leaf")
+        else:
+            P.cover(ex, res, o, z3.BoolVal(len(dec) >= 1), "run ends inside the buffer")
+        return True
+
+    _check_paths(ex, res, outs, per_path)
+    return P.finish(ex, res, ["continuation from a later leaf", "run ends inside the buffer"])
